@@ -126,6 +126,8 @@ pub struct Gen {
     fresh_start: bool,
     /// a function defined in the previous step: call it soon
     pending_call: Option<String>,
+    /// a chain (with its type) to be emitted verbatim as the next step (probe families that need an exact call)
+    pending_chain: Option<(Chain, Ty)>,
 }
 
 const TUPLE_NAMES: &[&str] = &["A", "B", "C", "P"];
@@ -150,7 +152,7 @@ fn builtin(name: &str) -> Term {
 
 impl Gen {
     pub fn new(rng: Rng) -> Gen {
-        Gen { rng, counter: 0, features: vec![], budget: 0, fresh_start: false, pending_call: None }
+        Gen { rng, counter: 0, features: vec![], budget: 0, fresh_start: false, pending_call: None, pending_chain: None }
     }
 
     fn feat(&mut self, f: &'static str) {
@@ -459,6 +461,11 @@ impl Gen {
     /// as statically nil.
     fn gen_step(&mut self, env: &mut Env, tin: &Ty, d: u32, tail: bool, cx: &Cx, is_last: bool) -> (Chain, Ty, Vec<String>, bool) {
         let roll = self.rng.below(10);
+        if let Some((c, ty)) = self.pending_chain.take() {
+            env.kill_pending();
+            self.fresh_start = false;
+            return (c, ty, vec![], false);
+        }
         if let Some(fname) = self.pending_call.take() {
             // call the function defined in the previous step (functions that are never applied test
             // nothing but their compilation)
@@ -496,6 +503,11 @@ impl Gen {
         }
         if !is_last && !tail && self.chance(1, 9) && !self.low() {
             if let Some(r) = self.closure_probe(env) {
+                return r;
+            }
+        }
+        if !is_last && !tail && self.chance(1, 30) && !self.low() {
+            if let Some(r) = self.repeat_probe(env) {
                 return r;
             }
         }
@@ -1615,6 +1627,153 @@ impl Gen {
             }
             _ => None,
         }
+    }
+
+    /// repeated-identifier probes: `g = #T { =PAT => <the bound names> | 0 }` whose pattern repeats a name,
+    /// called in the next step from a context that addresses its operands BY POSITION — `v [ARG g, ~]`:
+    /// the second field's `~` is a Pick below whatever the first field's call left — with an argument
+    /// that makes the equality hold or FAIL (about half each). Families: the two occurrences share a path
+    /// prefix (same sub-tuple, at several depths, named / unnamed containers); the first occurrence sits
+    /// inside a sub-pattern the compiler analyses once per VARIANT of a union-typed field (tuple pattern,
+    /// partial pattern), the repetition after it (20d41f1).
+    fn repeat_probe(&mut self, env: &mut Env) -> Option<(Chain, Ty, Vec<String>, bool)> {
+        let g = self.var_name(env, &[]);
+        let a = self.var_name(env, &[g.clone()]);
+        let b = self.var_name(env, &[g.clone(), a.clone()]);
+        if g == a || g == b || a == b || env.lookup(&g).is_some() || env.lookup(&a).is_some() || env.lookup(&b).is_some() {
+            return None;
+        }
+        let int = |z: i64| Term::Lit(Lit::Int(z));
+        let tupv = |n: Option<&str>, fs: Vec<(Option<&str>, Term)>| {
+            Term::Tuple(
+                match n {
+                    Some(n) => TupName::Named(n.to_string()),
+                    None => TupName::Anon,
+                },
+                fs.into_iter().map(|(l, t)| Field::Val(l.map(|l| l.to_string()), Chain::new(vec![t]))).collect(),
+            )
+        };
+        let u = |n: Option<&str>, fs: Vec<(Option<&str>, Ty)>| Ty::Tup(n.map(|n| n.to_string()), fs.into_iter().map(|(l, t)| (l.map(|l| l.to_string()), t)).collect());
+        let pt = |n: Option<&str>, fs: Vec<Pat>| Pat::Tup(n.map(|n| n.to_string()), fs.into_iter().map(|p| (None, p)).collect());
+        let x = self.rng.range(0, 3);
+        let y = if self.chance(1, 2) { x } else { self.rng.range(0, 3) };
+        let z = self.rng.range(0, 9);
+        let ba = || Pat::Bind(a.clone());
+        let bb = || Pat::Bind(b.clone());
+        let kind = self.rng.below(7);
+        // parameter type, pattern, argument, names to return
+        let (pty, pat, arg, outs, feat): (Ty, Pat, Term, Vec<String>, &'static str) = match kind {
+            0 => (
+                u(None, vec![(None, u(None, vec![(None, Ty::Int), (None, Ty::Int)])), (None, Ty::Int)]),
+                pt(None, vec![pt(None, vec![ba(), ba()]), bb()]),
+                tupv(None, vec![(None, tupv(None, vec![(None, int(x)), (None, int(y))])), (None, int(z))]),
+                vec![a.clone(), b.clone()],
+                "repeat-probe-shared-prefix",
+            ),
+            1 => (
+                u(Some("A"), vec![(None, Ty::Int), (None, u(None, vec![(None, u(None, vec![(None, Ty::Int), (None, Ty::Int)])), (None, Ty::Int)]))]),
+                pt(Some("A"), vec![Pat::Wild, pt(None, vec![pt(None, vec![ba(), ba()]), bb()])]),
+                tupv(
+                    Some("A"),
+                    vec![(None, int(z)), (None, tupv(None, vec![(None, tupv(None, vec![(None, int(x)), (None, int(y))])), (None, int(z + 1))]))],
+                ),
+                vec![a.clone(), b.clone()],
+                "repeat-probe-shared-prefix-deep",
+            ),
+            2 => (
+                u(Some("C"), vec![(None, u(Some("P"), vec![(None, Ty::Int), (None, Ty::Int)])), (None, Ty::Int)]),
+                pt(Some("C"), vec![pt(Some("P"), vec![ba(), ba()]), Pat::Wild]),
+                tupv(Some("C"), vec![(None, tupv(Some("P"), vec![(None, int(x)), (None, int(y))])), (None, int(z))]),
+                vec![a.clone()],
+                "repeat-probe-shared-prefix-named",
+            ),
+            3 => (
+                // three occurrences: two share the container, the third sits outside
+                u(None, vec![(None, u(None, vec![(None, Ty::Int), (None, Ty::Int)])), (None, Ty::Int)]),
+                pt(None, vec![pt(None, vec![ba(), ba()]), ba()]),
+                tupv(None, vec![(None, tupv(None, vec![(None, int(x)), (None, int(y))])), (None, int(if self.chance(1, 2) { x } else { z }))]),
+                vec![a.clone()],
+                "repeat-probe-shared-prefix-and-outside",
+            ),
+            4 => (
+                // the first occurrence inside a tuple pattern on a union-typed field (both variants match)
+                u(
+                    None,
+                    vec![
+                        (None, Ty::union(vec![u(None, vec![(None, Ty::Int), (None, Ty::Int)]), u(None, vec![(None, Ty::Int), (None, Ty::Bin)])])),
+                        (None, Ty::Int),
+                    ],
+                ),
+                pt(None, vec![pt(None, vec![ba(), Pat::Wild]), ba()]),
+                tupv(
+                    None,
+                    vec![
+                        (None, tupv(None, vec![(None, int(x)), (None, if self.chance(1, 2) { int(z) } else { Term::Lit(Lit::Bin(vec![z as u8])) })])),
+                        (None, int(y)),
+                    ],
+                ),
+                vec![a.clone()],
+                "repeat-probe-after-multi-variant-tuple",
+            ),
+            5 => {
+                // … inside a partial pattern on a union of named tuples with the same label
+                let (n1, n2) = ("A", "B");
+                let which = if self.chance(1, 2) { n1 } else { n2 };
+                (
+                    u(None, vec![(None, Ty::union(vec![u(Some(n1), vec![(Some("k"), Ty::Int)]), u(Some(n2), vec![(Some("k"), Ty::Int)])])), (None, Ty::Int)]),
+                    pt(None, vec![Pat::Part(None, vec![("k".to_string(), Some(ba()))]), ba()]),
+                    tupv(None, vec![(None, tupv(Some(which), vec![(Some("k"), int(x))])), (None, int(y))]),
+                    vec![a.clone()],
+                    "repeat-probe-after-partial-on-union",
+                )
+            }
+            _ => {
+                // … the field bound under its own label by the partial pattern, repeated as a binder
+                let which = if self.chance(1, 2) { "A" } else { "B" };
+                (
+                    u(None, vec![(None, Ty::union(vec![u(Some("A"), vec![(Some("k"), Ty::Int)]), u(Some("B"), vec![(Some("k"), Ty::Int)])])), (None, Ty::Int)]),
+                    pt(None, vec![Pat::Part(None, vec![("k".to_string(), None)]), Pat::Bind("k".to_string())]),
+                    tupv(None, vec![(None, tupv(Some(which), vec![(Some("k"), int(x))])), (None, int(y))]),
+                    vec!["k".to_string()],
+                    "repeat-probe-after-partial-label-on-union",
+                )
+            }
+        };
+        if outs.iter().any(|o| o == "k") && env.lookup("k").is_some() {
+            return None;
+        }
+        let res = if outs.len() == 1 {
+            Term::Access(Src::Var(outs[0].clone()), vec![])
+        } else {
+            Term::Tuple(TupName::Anon, outs.iter().map(|o| Field::Val(None, Chain::new(vec![Term::Access(Src::Var(o.clone()), vec![])]))).collect())
+        };
+        let rty = if outs.len() == 1 { Ty::Int } else { Ty::Tup(None, outs.iter().map(|_| (None, Ty::Int)).collect()) };
+        let body = Expr {
+            branches: vec![
+                Branch { cond: vec![Chain::new(vec![Term::Match(pat)])], cons: Some(vec![Chain::new(vec![res])]) },
+                Branch { cond: vec![Chain::new(vec![int(0)])], cons: None },
+            ],
+        };
+        let ret = Ty::union(vec![rty, Ty::Int]);
+        let fty = Ty::Fn(Box::new(pty.clone()), Box::new(ret.clone()));
+        env.bind(&g, fty, St::Definite);
+        // next step: `v [ARG g, ~]`
+        let v = self.rng.range(10, 99);
+        let call = Chain::new(vec![
+            int(v),
+            Term::Tuple(
+                TupName::Anon,
+                vec![
+                    Field::Val(None, Chain::new(vec![arg, Term::Access(Src::Var(g.clone()), vec![])])),
+                    Field::Val(None, Chain::new(vec![Term::Access(Src::Ripple, vec![])])),
+                ],
+            ),
+        ]);
+        self.pending_chain = Some((call, Ty::Tup(None, vec![(None, ret), (None, Ty::Int)])));
+        self.feat("repeat-probe");
+        self.feat(feat);
+        self.fresh_start = false;
+        Some((Chain { pat: Some(Pat::Bind(g)), terms: vec![Term::Fn { param: pty, body: Some(body) }] }, Ty::ok(), vec![], false))
     }
 
     /// closure probes: `f = #{ … }` (called in the next step) whose body
